@@ -229,7 +229,7 @@ def _safety(name):
 
 
 _ALL_UNITS = ["take_range", "sort_take", "split_order", "window_frame", "dialect_select", "ident_quote", "ids_names", "toposort", "rq_tables",
-              "select_shape", "span_units", "sql_prec", "prql_prec", "literals", "set_ops", "desugar", "resolve_guards", "lex_strings", "limit_clause", "static_eval", "operator_tpl", "rel_names", "lower_cols", "vec_utils", "group_take", "flatten_sort", "star_exclude", "std_arity", "limit_select", "rq_shape", "star_cols", "func_env", "json_lits", "cte_define", "type_meet", "fmt_strings", "concat_ops"]
+              "select_shape", "span_units", "sql_prec", "prql_prec", "literals", "set_ops", "desugar", "resolve_guards", "lex_strings", "limit_clause", "static_eval", "operator_tpl", "rel_names", "lower_cols", "vec_utils", "group_take", "flatten_sort", "star_exclude", "std_arity", "limit_select", "rq_shape", "star_cols", "func_env", "json_lits", "cte_define", "type_meet", "fmt_strings", "concat_ops", "sstring_query"]
 prop("C12", _ALL_UNITS, select={u: _safety for u in _ALL_UNITS},
      not_covered="every function that is not under contract (~150 unwrap/expect sites, panic!(cannot find cid) in lookup_cid), "
                  "recursion depth, chumsky, time bounds")
